@@ -23,8 +23,12 @@ EXTENDS Integers, Sequences, TLC, FiniteSets
 
 CONSTANTS Inputs,      \* set of [toks, incode, open, src] records
           DevP2
-DevP2Intended == [BlockIgnoresEOF |-> FALSE, ObjectNoProgress |-> FALSE]
-DevP2AsCoded  == [BlockIgnoresEOF |-> TRUE, ObjectNoProgress |-> TRUE]
+DevP2Intended == [BlockIgnoresEOF |-> FALSE, ObjectNoProgress |-> FALSE, IllegalSteppedOver |-> FALSE]
+DevP2AsCoded  == [BlockIgnoresEOF |-> TRUE, ObjectNoProgress |-> TRUE, IllegalSteppedOver |-> FALSE]   \* the two pinned loops
+\* IllegalSteppedOver: the name positions of @each / @insert / @slot / @reserve / @use take the token as it is; as
+\* pinned, an illegal token there was never looked at (repaired: the parser remembers the first illegal token the
+\* lexer hands it and reports it when nothing else has been reported)
+DevP2Illegal  == [BlockIgnoresEOF |-> FALSE, ObjectNoProgress |-> FALSE, IllegalSteppedOver |-> TRUE]
 
 (* --fair algorithm TwParser
 variables inp \in Inputs, toks = inp.toks, i = 1, errs = <<>>, nilp = FALSE;
@@ -283,6 +287,9 @@ begin
  P2:   i := i + 1;
      end while;
      if inp.incode then err("unexpected end of file"); end if;
+ P2a: if errs = <<>> /\ ~DevP2.IllegalSteppedOver /\ (\E k \in 1..Len(toks) : toks[k] = "ILLEGAL") then
+       err("illegal token");
+     end if;
  P3: skip;
 end algorithm; *)
 \* BEGIN TRANSLATION
@@ -1154,7 +1161,7 @@ P0 == /\ pc = "P0"
                        THEN /\ errs' = Append(errs, "unexpected end of file")
                        ELSE /\ TRUE
                             /\ errs' = errs
-                 /\ pc' = "P3"
+                 /\ pc' = "P2a"
                  /\ stack' = stack
       /\ UNCHANGED << inp, toks, i, nilp, closer, kind >>
 
@@ -1172,6 +1179,14 @@ P2 == /\ pc = "P2"
       /\ pc' = "P0"
       /\ UNCHANGED << inp, toks, errs, nilp, stack, closer, kind >>
 
+P2a == /\ pc = "P2a"
+       /\ IF errs = <<>> /\ ~DevP2.IllegalSteppedOver /\ (\E k \in 1..Len(toks) : toks[k] = "ILLEGAL")
+             THEN /\ errs' = Append(errs, "illegal token")
+             ELSE /\ TRUE
+                  /\ errs' = errs
+       /\ pc' = "P3"
+       /\ UNCHANGED << inp, toks, i, nilp, stack, closer, kind >>
+
 P3 == /\ pc = "P3"
       /\ TRUE
       /\ pc' = "Done"
@@ -1183,7 +1198,7 @@ Terminating == pc = "Done" /\ UNCHANGED vars
 Next == parseExpr \/ parseList \/ parseObject \/ parseBlock \/ parseIf
            \/ parseEach \/ parseInsert \/ parseComponent \/ parseEmbedded
            \/ parseFor \/ parseArgDirective \/ parseStatement \/ P0 \/ P1 \/ P2
-           \/ P3
+           \/ P2a \/ P3
            \/ Terminating
 
 Spec == /\ Init /\ [][Next]_vars
@@ -1198,6 +1213,9 @@ Finished == pc = "Done"
 ProgramOrErrors == Finished => (nilp => errs # <<>>)
 \* C08: a template cut inside an open construct is rejected
 PrefixRejected == (Finished /\ inp.open) => errs # <<>>
+\* C08: a template containing an illegal character is rejected, wherever the character stands
+HasIllegal == \E k \in 1..Len(toks) : toks[k] = "ILLEGAL"
+IllegalRejected == (Finished /\ HasIllegal) => errs # <<>>
 \* the cursor only moves back for the one-token backUp of an empty block
 CursorSane == i >= 0
 =============================================================================
